@@ -6,7 +6,7 @@
    cur_of / hw_of / pers_of / acc_of recompute from such a trace alone: the position after the last
    accepted batch (a restart resumes where it says), the largest position ever accepted, the last
    position written to forwarder.json, the batches accepted since the last restart. *)
-From LR Require Import lib.Base model.Forwarder proofs.ForwarderP.
+From LR Require Import lib.Base model.Forwarder proofs.ForwarderP model.SyslogSink proofs.SyslogSinkP.
 
 (* Every hand-over to the sink (accepted or not, first try or retry) is a non-empty run of consecutive
    partition events in stored order that begins exactly after the last accepted batch: no gap, nothing
@@ -103,3 +103,32 @@ Example ex_trace : trace ex_script =
 Proof. vm_compute. reflexivity. Qed.
 Example ex_marks : cur_of (trace ex_script) = 4 /\ hw_of (trace ex_script) = 5 /\ pers_of (trace ex_script) = 3.
 Proof. vm_compute. repeat split. Qed.
+
+(* ---- the syslog sink (model/SyslogSink.v): what "the sink accepted / rejected the batch" means on the wire ----
+   For every state of the logger (connected or not, any remaining life of the connection), every script of future
+   connection attempts (accepted with any life / refused) and every non-empty batch: one OnEvent call sends a prefix of
+   the batch, in order, on the connection(s); it reports success only if it sent the whole batch, and when it reports
+   an error nothing after the event whose write failed has been sent - so the forwarder's retry of the same batch
+   delivers the failed event before anything that follows it. *)
+Theorem C18_sink_batch : forall (E : Type) (l : lg E) (batch : list E), batch <> [] ->
+  let '(l', ok) := on_event code_stops_at_first_error l batch true in
+  exists j, received l' = received l ++ firstn j batch /\
+            (ok = true -> j = length batch) /\ (ok = false -> j < length batch).
+Proof.
+  intros E l batch NE. pose proof (on_event_stop E batch l true) as H. unfold code_stops_at_first_error.
+  destruct (on_event true l batch true) as [l' ok]. destruct H as (j & _ & R & A & B & _).
+  exists j. split; [exact R|]. split; [exact A|]. intros F. exact (B F NE).
+Qed.
+Print Assumptions C18_sink_batch.
+
+(* the statement is false of a loop that goes on after a failed write and returns the last error: the connection
+   dies after the first line, the second write fails, the third reconnects and succeeds: the batch is reported
+   delivered, the peer has lines 1 and 3 *)
+Theorem C18_sink_batch_continue_refuted : ~ (forall (l : lg Z) (batch : list Z), batch <> [] ->
+  let '(l', ok) := on_event false l batch true in
+  exists j, received l' = received l ++ firstn j batch /\ (ok = true -> j = length batch) /\ (ok = false -> j < length batch)).
+Proof.
+  intros H. specialize (H (mkLg (Some (Some 1)) [Some None] [[]]) [1; 2; 3]%Z ltac:(discriminate)).
+  vm_compute in H. destruct H as (j & R & A & _). specialize (A eq_refl). subst j. discriminate R.
+Qed.
+Print Assumptions C18_sink_batch_continue_refuted.
